@@ -106,14 +106,136 @@ def _phases_of_stmt(s):
     raise SkeletonError(f"unsupported communication statement: {ast.unparse(s).splitlines()[0]}")
 
 
+TARGET_STMTS = ("target_remotes = self._get_target_remotes(indices)", "target_remotes = self._get_target_remotes(indices=None)")
+
+
+def _is_doc(s):
+    return isinstance(s, ast.Expr) and isinstance(s.value, ast.Constant) and isinstance(s.value.value, str)
+
+
+def _assigned_names(func):
+    """names / attribute paths assigned anywhere in the function body (parameters rebound, self._seeds overwritten, ...)"""
+    out = set()
+    for n in ast.walk(func):
+        tgts = []
+        if isinstance(n, ast.Assign):
+            tgts = n.targets
+        elif isinstance(n, (ast.AugAssign, ast.AnnAssign)):
+            tgts = [n.target]
+        elif isinstance(n, (ast.For, ast.comprehension)):
+            tgts = [n.target]
+        for t in tgts:
+            for m in ast.walk(t):
+                if isinstance(m, (ast.Name, ast.Attribute)) and isinstance(getattr(m, "ctx", None), ast.Store):
+                    out.add(ast.unparse(m))
+    return out
+
+
+def _payload(func, stmt):
+    """which data a SendEach loop sends to worker i"""
+    call = stmt.body[0].value
+    kind = call.args[0].elts[0].value
+    data = call.args[0].elts[1] if len(call.args[0].elts) == 2 else None
+    if data is None:
+        return "PayOther"
+    params = {a.arg for a in func.args.args + func.args.kwonlyargs} - {"self"}
+    if func.args.vararg:
+        params.add(func.args.vararg.arg)
+    if func.args.kwarg:
+        params.add(func.args.kwarg.arg)
+    assigned = _assigned_names(func)
+    it, tgt = stmt.iter, stmt.target
+    if kind == "step":
+        ok = (isinstance(it, ast.Call) and ast.unparse(it) == "zip(self.remotes, actions)" and isinstance(tgt, ast.Tuple) and len(tgt.elts) == 2
+              and isinstance(tgt.elts[1], ast.Name) and isinstance(data, ast.Name) and data.id == tgt.elts[1].id
+              and "actions" in params and "actions" not in assigned)
+        return "PayOwnAction" if ok else "PayOther"
+    if kind == "reset":
+        ok = (isinstance(it, ast.Call) and ast.unparse(it) == "enumerate(self.remotes)" and isinstance(tgt, ast.Tuple) and isinstance(tgt.elts[0], ast.Name)
+              and ast.unparse(data) == f"(self._seeds[{tgt.elts[0].id}], self._options[{tgt.elts[0].id}])"
+              and "self._seeds" not in assigned and "self._options" not in assigned)
+        return "PayOwnSeedOption" if ok else "PayOther"
+    loopvars = {m.id for m in ast.walk(tgt) if isinstance(m, ast.Name)}
+    names = {m.id for m in ast.walk(data) if isinstance(m, ast.Name)}
+    if names <= params and not (names & loopvars) and not (names & assigned) and not any(isinstance(m, (ast.Attribute, ast.Call, ast.Subscript)) for m in ast.walk(data)):
+        return "PayCallArgs"
+    return "PayOther"
+
+
+def _results_ordered(func, stmts_after, recv_stmt):
+    """the list received in worker order must reach the return value without being re-ordered: it may only be unpacked with
+    zip(*results), and the unpacked columns only be stacked (_stack_obs / np.stack), stored or returned as they are"""
+    ordered = set()
+    if isinstance(recv_stmt, ast.Assign):
+        if len(recv_stmt.targets) != 1 or not isinstance(recv_stmt.targets[0], ast.Name):
+            return False
+        ordered.add(recv_stmt.targets[0].id)
+    parents = {}
+    for st in stmts_after:
+        for n in ast.walk(st):
+            for ch in ast.iter_child_nodes(n):
+                parents[ch] = n
+    for st in stmts_after:
+        # results, columns rebound
+        for n in ast.walk(st):
+            if isinstance(n, ast.Name) and isinstance(n.ctx, ast.Store) and n.id in ordered:
+                return False
+        if isinstance(st, ast.Assign) and isinstance(st.value, ast.Call) and ast.unparse(st.value.func) == "zip" and len(st.value.args) == 1 \
+                and isinstance(st.value.args[0], ast.Starred) and isinstance(st.value.args[0].value, ast.Name) and st.value.args[0].value.id in ordered \
+                and len(st.targets) == 1 and isinstance(st.targets[0], ast.Tuple):
+            for e in st.targets[0].elts:
+                if isinstance(e, ast.Name):
+                    ordered.add(e.id)
+                elif ast.unparse(e) != "self.reset_infos":
+                    return False
+            continue
+        for n in ast.walk(st):
+            if isinstance(n, ast.Name) and isinstance(n.ctx, ast.Load) and n.id in ordered:
+                par = parents.get(n)
+                ok = (isinstance(par, ast.Return)
+                      or (isinstance(par, ast.Tuple) and isinstance(parents.get(par), ast.Return))
+                      or (isinstance(par, ast.Call) and ast.unparse(par.func) in ("_stack_obs", "np.stack") and par.args and par.args[0] is n))
+                if not ok:
+                    return False
+    return True
+
+
 def method_skeleton(func):
-    phases = []
-    for s in func.body:
-        try:
-            phases += _phases_of_stmt(s)
-        except SkeletonError:
-            phases.append("Unrecognised")
-    return phases
+    """(phases, targets_stmt_ok, payloads, results_ordered)"""
+    body = [s for s in func.body if not _is_doc(s)]
+    comm_idx = [i for i, s in enumerate(body) if _comm_calls(s)]
+    phases, payloads = [], []
+    targets_ok, ordered_ok = True, True
+    uses_targets = False
+    for i, s in enumerate(body):
+        if i in comm_idx:
+            try:
+                ph = _phases_of_stmt(s)
+            except SkeletonError:
+                ph = ["Unrecognised"]
+            phases += ph
+            if ph and ph[0].startswith("SendEach"):
+                payloads.append(_payload(func, s))
+                uses_targets = uses_targets or ph[0].startswith("SendEach false")
+            if ph and ph[0].startswith("RecvEach") and i == comm_idx[-1]:
+                ordered_ok = _results_ordered(func, body[i + 1:], s)
+            continue
+        if comm_idx and comm_idx[0] < i < comm_idx[-1]:
+            # between two communication phases nothing may happen except the bookkeeping flag
+            if not (isinstance(s, ast.Assign) and ast.unparse(s) in ("self.waiting = True", "self.waiting = False")):
+                phases.append("Unrecognised")
+            continue
+        if not comm_idx or i < comm_idx[0]:
+            # before the first phase: the target list must come from exactly _get_target_remotes(indices)
+            if any(isinstance(n, ast.Name) and n.id == "target_remotes" and isinstance(n.ctx, ast.Store) for n in ast.walk(s)):
+                if ast.unparse(s) not in TARGET_STMTS:
+                    targets_ok = False
+    if uses_targets:
+        has_indices = any(a.arg == "indices" for a in func.args.args + func.args.kwonlyargs)
+        allowed = TARGET_STMTS[:1] if has_indices else TARGET_STMTS[1:]      # a method with an `indices` parameter must pass it on
+        defs = [ast.unparse(s) for s in body[: comm_idx[0]] if ast.unparse(s) in allowed] if comm_idx else []
+        targets_ok = targets_ok and len(defs) == 1 and "indices" not in (_assigned_names(func) - {"target_remotes"})
+    return phases, targets_ok, payloads, ordered_ok
 
 
 def _find(tree, qual):
@@ -137,6 +259,7 @@ def worker_skeleton(func):
     if len(body) != 2 or not isinstance(body[1], ast.If):
         raise SkeletonError("worker dispatch shape")
     replies = []
+    shapes = {}
     node = body[1]
     recvs = 1
     while True:
@@ -148,6 +271,10 @@ def worker_skeleton(func):
             raise SkeletonError(f"unknown worker command {k!r}")
         comm = [c for st in node.body for c in _comm_calls(st)]
         recvs += sum(1 for c in comm if c[0] != "send")
+        if k in REPLY_SHAPES:
+            sends = [c[1] for c in comm if c[0] == "send"]
+            shapes[k] = len(sends) == 1 and len(sends[0].args) == 1 and ast.unparse(sends[0].args[0]) == REPLY_SHAPES[k] \
+                and _reset_binding_ok(node.body, k)
         # sends inside try/except alternatives (has_attr) count once per alternative: take the max over paths
         replies.append((KINDS[k], _max_sends(node.body)))
         if len(node.orelse) == 1 and isinstance(node.orelse[0], ast.If):
@@ -156,7 +283,18 @@ def worker_skeleton(func):
             if any(_comm_calls(s) for s in node.orelse):
                 raise SkeletonError("communication in the default branch")
             break
-    return recvs, replies
+    return recvs, replies, shapes
+
+
+REPLY_SHAPES = {"step": "(observation, reward, done, info, reset_info)", "reset": "(observation, reset_info)"}
+
+
+def _reset_binding_ok(stmts, kind):
+    """the reply's reset_info is the one returned by env.reset in this branch (step: by the automatic reset, else the kept one)"""
+    binds = [ast.unparse(n.targets[0]) for st in stmts for n in ast.walk(st)
+             if isinstance(n, ast.Assign) and isinstance(n.value, ast.Call) and ast.unparse(n.value.func) == "env.reset"]
+    others = [n for st in stmts for n in ast.walk(st) if isinstance(n, ast.Name) and isinstance(n.ctx, ast.Store) and n.id == "reset_info"]
+    return binds == ["(observation, reset_info)"] and len(others) == 1
 
 
 def _max_sends(stmts):
@@ -192,14 +330,18 @@ def render() -> tuple[str, list]:
     bad = []
     for m in METHODS:
         try:
-            ph = method_skeleton(_find(tree, f"SubprocVecEnv.{m}"))
+            ph, tok, pays, ordered = method_skeleton(_find(tree, f"SubprocVecEnv.{m}"))
         except SkeletonError as e:
-            ph = ["Unrecognised"]
+            ph, tok, pays, ordered = ["Unrecognised"], False, [], False
             bad.append(f"{m}: {e}")
         if "Unrecognised" in ph:
             bad.append(m)
         out.append(f"(* {SRC} :: SubprocVecEnv.{m} *)")
         out.append(f"Definition skel_{m} : list phase := [{'; '.join(ph)}].")
+        # which data worker i is sent, where the target list comes from, whether the replies reach the caller in worker order
+        out.append(f"Definition skel_{m}_payload : list payload := [{'; '.join(pays)}].")
+        out.append(f"Definition skel_{m}_targets_ok : bool := {str(bool(tok)).lower()}.")
+        out.append(f"Definition skel_{m}_results_ordered : bool := {str(bool(ordered)).lower()}.")
     # _get_target_remotes keeps index order; _get_indices(None) = range(num_envs)
     try:
         f = _find(tree, "SubprocVecEnv._get_target_remotes")
@@ -219,12 +361,14 @@ def render() -> tuple[str, list]:
         ok2 = False
     out.append(f"Definition skel_indices_none_is_range : bool := {str(ok2).lower()}.")
     try:
-        recvs, replies = worker_skeleton(_find(tree, "_worker"))
+        recvs, replies, shapes = worker_skeleton(_find(tree, "_worker"))
     except SkeletonError as e:
-        recvs, replies = 0, []
+        recvs, replies, shapes = 0, [], {}
         bad.append(f"_worker: {e}")
     out.append(f"(* {SRC} :: _worker *)")
     out.append(f"Definition worker_recvs_per_iteration : nat := {recvs}.")
+    out.append(f"Definition worker_step_reply_ok : bool := {str(bool(shapes.get('step'))).lower()}.")
+    out.append(f"Definition worker_reset_reply_ok : bool := {str(bool(shapes.get('reset'))).lower()}.")
     out.append("Definition worker_replies : list (cmdkind * nat) := [" + "; ".join(f"({k}, {max(n, 0) if n >= 0 else 99})" for k, n in replies) + "].")
     return "\n".join(out) + "\n", bad
 
